@@ -88,16 +88,19 @@ func (f *DoSymbols) Call(s *slip.Scope, args slip.List, depth int) slip.Object {
 
 	ss := s.NewScope()
 	ss.Block = true
+	ss.TagBody = true
 	forms := args[1:]
 	for _, name := range names {
 		ss.Let(sym, slip.Symbol(name))
-		for i := range forms {
-			if rr, ok2 := slip.EvalArg(ss, forms, i, d2).(*slip.ReturnResult); ok2 {
-				if rr.Tag == nil {
-					return rr.Result
-				}
-				return rr
+		switch tr := EvalTagBody(ss, forms, 0, d2).(type) {
+		case *slip.ReturnResult:
+			if tr.Tag == nil {
+				return tr.Result
 			}
+			return tr
+		case *GoTo:
+			// The tag is in an enclosing tagbody.
+			return tr
 		}
 	}
 	return ss.Eval(rform, d2)
